@@ -96,7 +96,16 @@ class SphinxInventory:
             decompressed = decompressor.decompress(payload)
             complete = decompressor.eof
         except zlib.error:
-            decompressed = b''
+            # The stream is damaged somewhere: decompress it again step by
+            # step, to recover what precedes the damage.
+            decompressor = zlib.decompressobj()
+            recovered = []
+            try:
+                for i in range(len(payload)):
+                    recovered.append(decompressor.decompress(payload[i:i + 1]))
+            except zlib.error:
+                pass
+            decompressed = b''.join(recovered)
             complete = False
         if not complete:
             self.error(
